@@ -12,7 +12,9 @@ RULE = ("one case = one seeded whole-core scenario under saturating / single-ban
         "controller); non-trivial = >= 5 refreshes observed; distinct = distinct event-log digest")
 ASSUMPTIONS = cc.COMMON_ASSUMPTIONS + [
     "k-th REF no later than (k + postponing) * tREFI_ns + L, L = 2*(worst-case bank drain + postponing*(tRP+tRFC)) + 64 cycles, a constant of the configuration",
-    "refresh-feasible configurations: postponing*(tRP+tRFC) + L <= postponing*tREFI/2"]
+    "refresh-feasible configurations: postponing*(tRP+tRFC) + L <= postponing*tREFI/2",
+    "steady-rate oracle: >= 16 consecutive equally spaced, equally sized refresh bursts are taken to show the refresher's period (it is a free-running "
+    "counter); that period must not exceed the datasheet tREFI per refresh"]
 LEVEL_TEXT = ("Seeded exploration over long horizons (tens to hundreds of refresh intervals) with saturating traffic; oracle on REF/ZQC times against "
               "the datasheet interval. Sampling, not proof.")
 
@@ -26,7 +28,7 @@ def gen(rng, tier, index):
         core, info = coregen.gen_core(rng, lib=False, zqcs=False, nports=1)
         P = core["clk_period_ps"] / 1000.0
         n = rng.randint(102, 130)
-        core["module"]["tech"]["tREFI"] = round((n + rng.choice([0.02, 0.05, 0.1])) * P, 4)
+        core["module"]["tech"]["tREFI"] = round((n + rng.choice([0.02, 0.05, 0.1, 0.3, 0.55, 0.8, 0.97])) * P, 4)
         core["ctrl"]["refresh_postponing"] = rng.choice([1, 1, 2])
         info["trefi_cyc"] = n + 1
     else:
